@@ -64,7 +64,8 @@ func (k *KVStore) Import(data []byte, f func(uint64, storage.Entry) error) error
 	}
 
 	tb.Range(func(hkey uint64, e storage.Entry) bool {
-		return f(hkey, e) == nil
+		err = f(hkey, e)
+		return err == nil
 	})
 	return err
 }
